@@ -24,6 +24,7 @@ func init() {
 			{ID: "C01.R5", Floor: 6, Run: c01r5, Text: "cached-pointer coherence: a store to entityBuffer is followed by entityPointer = that buffer's address; to buffers[i] by the layout pointer of the same column; to layouts by basePointer = &layouts[0]; growth copies old to new with reflect.Copy(new, old) for the entity buffer and every sized column"},
 			{ID: "C01.R6", Floor: 2, Run: c16r1, Text: "layout capacity chain (= C16.R1)"},
 			{ID: "C01.R7", Floor: 3, Run: c01r7, Text: "per-column loops visit every column: in methods of the table type, a loop over the node's id list is left only through its range condition (no break/return out of the loop body)"},
+			{ID: "C01.R9", Floor: 2, Run: c01r9, Text: "graph edges are installed in symmetric pairs: every X.neighbors.Set(id, Y) in the destination finder has a partner Y.neighbors.Set(id, X) with the same id in the same block"},
 			{ID: "C01.R8", Floor: 5, Run: c02r6, Text: "growth copies whole slices (= C02.R6)"},
 		},
 	})
@@ -256,6 +257,26 @@ func c01r3(p *Prog, r *Reporter) {
 					bad = append(bad, "the column read ("+apath(get.Common().Args[2])+") is not the column written ("+apath(args[2])+")")
 				}
 			}
+			// the source row is the row of the entity being moved: the row passed to S.GetEntity (bulk) or to S.Remove (single)
+			if get != nil && isArchMethod(get, "Get") {
+				srcTable, srcRow := apath(get.Common().Args[0]), apath(get.Common().Args[1])
+				rowOK := false
+				for _, s2 := range callsIn(fn) {
+					if (isArchMethod(s2, "GetEntity") || isArchMethod(s2, "Remove")) && len(s2.Common().Args) >= 2 {
+						t2 := strings.TrimSuffix(apath(s2.Common().Args[0]), ".archetypeAccess")
+						if t2 == strings.TrimSuffix(srcTable, ".archetypeAccess") && apath(s2.Common().Args[1]) == srcRow && srcRow != "·" {
+							rowOK = true
+						}
+						// loop counters render as "·": compare the SSA values themselves
+						if t2 == strings.TrimSuffix(srcTable, ".archetypeAccess") && s2.Common().Args[1] == get.Common().Args[1] {
+							rowOK = true
+						}
+					}
+				}
+				if !rowOK {
+					bad = append(bad, "the source row "+srcRow+" is not the row of the entity being moved (the row read by GetEntity / vacated by Remove on the source table)")
+				}
+			}
 			// id comes from a range over S's id list (Components() of S, or S.node.Ids)
 			idSrc := apath(args[2])
 			if !strings.Contains(idSrc, "call(Components)[") && !strings.Contains(idSrc, ".Ids[") {
@@ -389,16 +410,18 @@ func c01r5(p *Prog, r *Reporter) {
 				}
 				dst, src := site.Common().Args[0], site.Common().Args[1]
 				dp := apath(dst)
-				if !(strings.Contains(dp, "entityBuffer") || strings.Contains(dp, ".buffers[")) {
-					continue
-				}
+				dstIsField := strings.Contains(dp, "entityBuffer") || strings.Contains(dp, ".buffers[")
 				for _, bs := range bufStores {
 					if bs.what == "layouts" {
 						continue
 					}
 					si, ok1 := src.(ssa.Instruction)
 					di, ok2 := dst.(ssa.Instruction)
-					if ok1 && ok2 && instrBefore(si, bs.st) && instrBefore(bs.st, di) && sameStorage(apath(src), apath(bs.st.Addr)) {
+					if !ok1 || !ok2 || !instrBefore(si, bs.st) || !sameStorage(apath(src), apath(bs.st.Addr)) {
+						continue
+					}
+					// destination: the field re-read after the replacement, or the very value that was stored into it
+					if dstIsField && instrBefore(bs.st, di) || bs.st.Val == dst {
 						copies++
 						break
 					}
@@ -494,4 +517,36 @@ func isLoopHeader(b *ssa.BasicBlock) bool {
 		}
 	}
 	return false
+}
+
+func c01r9(p *Prog, r *Reporter) {
+	for _, fn := range p.Funcs {
+		type edge struct {
+			site     ssa.CallInstruction
+			from, to string
+			id       string
+		}
+		var edges []edge
+		for _, site := range callsIn(fn) {
+			sc := site.Common().StaticCallee()
+			if sc == nil || !strings.HasPrefix(sc.Name(), "Set") || !strings.HasPrefix(typeName(recvType(sc)), "idMap") {
+				continue
+			}
+			recv := apath(site.Common().Args[0])
+			if !strings.HasSuffix(recv, ".neighbors") {
+				continue
+			}
+			edges = append(edges, edge{site, strings.TrimSuffix(strings.TrimSuffix(recv, ".neighbors"), ".nodeData"), apath(site.Common().Args[2]), apath(site.Common().Args[1])})
+		}
+		for i, e := range edges {
+			ok := false
+			for j, f := range edges {
+				if i != j && f.site.Block() == e.site.Block() && f.id == e.id && f.from == e.to && f.to == e.from {
+					ok = true
+				}
+			}
+			r.Check(ok, p.FuncName(fn), fmt.Sprintf("graph edge #%d %s -[%s]-> %s", i+1, e.from, e.id, e.to), p.Pos(e.site.Pos()),
+				"has the reverse edge with the same id in the same block (adding and removing a component are inverse walks)")
+		}
+	}
 }
